@@ -29,9 +29,29 @@ class Func:
     name: str = ""
 
 
+def c3(bases_mros: list, bases: list):
+    """C3 merge (Python's `__mro__` without the class itself); None if no consistent linearisation exists"""
+    seqs = [list(m) for m in bases_mros] + [list(bases)]
+    out = []
+    while True:
+        seqs = [q for q in seqs if q]
+        if not seqs:
+            return out
+        for q in seqs:
+            h = q[0]
+            if not any(h in r[1:] for r in seqs):
+                break
+        else:
+            return None
+        out.append(h)
+        for q in seqs:
+            if q[0] == h:
+                del q[0]
+
+
 @dataclass
 class Cls:
-    base: int | None
+    bases: list             # direct base classes, in order
     attrs: list             # [(attr id, type)]  own annotated attributes
     init_params: list       # list of types
     init_assigns: list      # [(attr id, expr)]
@@ -47,7 +67,7 @@ class Prog:
 
     def fill_mro(self) -> None:
         for c, cd in enumerate(self.classes):
-            cd.mro = [c] + (self.classes[cd.base].mro if cd.base is not None else [])
+            cd.mro = [c] + c3([self.classes[b].mro for b in cd.bases], cd.bases)
 
 
 # ----------------------------------------------------------------------------------------- python text
@@ -163,7 +183,7 @@ def func_py(fd: Func, name: str, self_cls: int | None, ind: str, out: list) -> N
 def to_python(p: Prog) -> str:
     out = list(HEADER)
     for c, cd in enumerate(p.classes):
-        out.append(f"class K{c}({'K%d' % cd.base if cd.base is not None else ''}):".replace("()", ""))
+        out.append(f"class K{c}({', '.join('K%d' % b for b in cd.bases)}):".replace("()", ""))
         for f, t in cd.attrs:
             out.append(f"    a{f}: {ty_py(t)}")
         out.extend("    " + l for l in cd.extra_src)
@@ -245,7 +265,7 @@ def func_lean(fd: Func) -> list:
 def prog_lean(p: Prog) -> list:
     out = ["prog", str(len(p.classes))]
     for cd in p.classes:
-        out += ["class", str(-1 if cd.base is None else cd.base), str(len(cd.mro))] + [str(k) for k in cd.mro]
+        out += ["class", str(len(cd.bases))] + [str(b) for b in cd.bases] + [str(len(cd.mro))] + [str(k) for k in cd.mro]
         out.append(str(len(cd.attrs)))
         for f, t in cd.attrs:
             out += [str(f)] + ty_lean(t)
